@@ -116,7 +116,7 @@ for _pid, _only, _must in [
     ('C03', r'LOST-USER-MESSAGE|AFTER-STOP|ended twice|PANIC|LOST WAKE-UP|FATAL', ['ev:dead-letter']),
     ('C05', r'LIFECYCLE|LAUNCH-TWICE|RESTART-NO-LAUNCH|PANIC|FATAL', ['ev:restarted', 'ev:zombie', 'ev:spawn-err:prelaunch']),
     ('C06', r'KILL-ONCE|CHILDREN-FIRST|NOT-RELEASED|HALF-STOPPED|PANIC|FATAL', ['ev:killed-event', 'ev:spawn-err:exists', 'ev:spawn-err:dead']),
-    ('C08', r'DECIDE-TWICE|PANIC|FATAL', ['ev:decide:1', 'ev:decide:2', 'ev:decide:3', 'ev:decide:4', 'ev:decide:5', 'ev:decide:6', 'matrix:']),
+    ('C08', r'DECIDE-TWICE|SUPERVISION-WHILE-STOPPING|PANIC|FATAL', ['ev:decide:1', 'ev:decide:2', 'ev:decide:3', 'ev:decide:4', 'ev:decide:5', 'ev:decide:6', 'matrix:']),
     ('C09', r'STAYS-PAUSED|HALF-STOPPED|NO-ANSWER|PANIC|FATAL', ['ev:restarted', 'ev:zombie', 'ev:decide:5', 'ev:decide:2', 'ev:decide:4']),
     ('C19', r'ES-TABLES|EVENT-TWICE|EVENT-NOT-SUBSCRIBED|EVENT-MISSED|PANIC|FATAL', ['ev:es-sub', 'ev:es-unsub', 'ev:es-unsuball', 'ev:es-pub-with-subscribers']),
 ]:
